@@ -689,8 +689,28 @@ def runs(repo, name):
         return cls(items, tables, "ascon_permute", {a0: ("ptr", "state", 0), a1: (("arg8", k) if cls is A64 else ("int", k))},
                    {"state": {"size": 40, "symbolic": True}}, cut=cut, **kw)
     verif = os.path.dirname(os.path.dirname(os.path.abspath(__file__)))
-    return kern_runs(name, layout, make, lambda lab: lab.startswith(".L"), items, "ascon_permute",
-                     os.path.join(verif, "build", "kern"), {"file": "src/core/" + fn, "macros": defs, "isa": cls.__name__ + (":" + kw["profile"] if kw else "")})
+    extra = {"file": "src/core/" + fn, "macros": defs, "isa": cls.__name__ + (":" + kw["profile"] if kw else "")}
+    # the file's other function (register wipe): must return with every callee-saved register and sp intact, without touching memory
+    free_err = None
+    if any(it[0] == "label" and it[1] == "ascon_backend_free" for it in items if isinstance(it, tuple) and len(it) > 1):
+        try:
+            m = cls(items, tables, "ascon_backend_free", {}, {"state": {"size": 40, "symbolic": True}}, cut=None, **kw)
+            m.run()
+            a = m.abi_facts()
+            a["memory_accesses"] = len([x for seg in getattr(m, "segments", []) for x in seg.b.leak if x[0] in "RW"]) if hasattr(m, "segments") else None
+            extra["ascon_backend_free"] = a
+            if a["callee_saved_bad"] or not a["sp_restored"]:
+                free_err = "at return callee-saved register(s) %s do not hold their entry values%s" % (", ".join(a["callee_saved_bad"]) or "-", "" if a["sp_restored"] else "; sp not restored")
+        except Stuck as ex:
+            extra["ascon_backend_free"] = {"error": str(ex)}
+            free_err = str(ex)
+    layout_, one = kern_runs(name, layout, make, lambda lab: lab.startswith(".L"), items, "ascon_permute", os.path.join(verif, "build", "kern"), extra)
+    if not free_err:
+        return layout_, one
+
+    def one_blocked(k):
+        raise Stuck("ascon_backend_free in the same file: " + free_err)
+    return layout_, one_blocked
 
 
 PROVIDERS = {n: runs for n in PROFILES}
